@@ -1136,8 +1136,13 @@ def isParamTy : Ty → Bool
   | .param _ => true
   | _ => false
 
+/-- is `p` an infix of the list -/
+def listInfix (p : List Char) : List Char → Bool
+  | [] => p.isEmpty
+  | c :: cs => p.isPrefixOf (c :: cs) || listInfix p cs
+
 /-- `str::contains` -/
-def strContains (s pat : String) : Bool := (s.splitOn pat).length > 1
+def strContains (s pat : String) : Bool := listInfix pat.toList s.toList
 
 def variantFields (i : Nat) : List Ty → List (String × GTy)
   | [] => []
